@@ -97,6 +97,11 @@ if __name__ == '__main__':
     if limit:
         surv = surv[:limit]
     res = []
+    if os.path.exists(out):
+        # resume: keep what was already decided
+        res = json.load(open(out))
+        done = {(r['func'], r['idx']) for r in res}
+        surv = [r for r in surv if (r['func'], r['idx']) not in done]
     with ProcessPoolExecutor(jobs) as ex:
         for r in ex.map(one, surv):
             res.append(r)
